@@ -114,6 +114,9 @@ func getPoolConfig(cfg *daemon.Config, daemonMode string, limit *client.Limits) 
 		if poolConfig.MinPoolSize > poolConfig.MaxPoolSize {
 			poolConfig.MinPoolSize = poolConfig.MaxPoolSize
 		}
+		// negative sizes in the configuration mean "none"
+		poolConfig.MaxPoolSize = max(poolConfig.MaxPoolSize, 0)
+		poolConfig.MinPoolSize = max(poolConfig.MinPoolSize, 0)
 
 		maxMemberENI = limit.MemberAdapterLimit
 
